@@ -182,4 +182,16 @@ example : specErrs 2 0 [false, false, false, true, false, false] = [false, true,
 example : (negAnswers (Host.init 3) [.tx (.resp ⟨false, false, 0, []⟩), .tx (.resp ⟨true, false, 0, [0xff, 5, 1]⟩),
     .tx (.resp ⟨true, false, 0, [0xF3, 1, 7]⟩)]).any isEcho = true := by decide +kernel
 
+/-! ## Limit of the guarantee (an observation, not a violation: the exactly-once clauses are about safelink mode)
+
+If the peer accepts the safelink request on all ten attempts but every echo is lost, the driver falls back to plain
+mode (`needs_resending = True`, so the upper layer retries) while the peer model is in safelink mode with counters (1, 1).
+cflib's packets carry header bits 3..2 = 11, so the peer model treats every one of them as a repeat: nothing is
+delivered although every transmission is acknowledged, and no link error is reported. -/
+example :
+    let s := (Sys.init 100 Peer.init).run
+      (List.replicate 10 (.xmit .ackLost 0 0) ++ [.sub ⟨0x3C, [1]⟩, .xmit .ok 1 1, .xmit .ok 1 1, .xmit .ok 1 1])
+    s.host.safelink = false ∧ s.host.needsResending = true ∧ s.peer.safelink = true ∧ s.peer.rxq = [] ∧
+    accepted s.evs = [⟨0x3C, [1]⟩] ∧ lossReports s.evs = 0 := by decide +kernel
+
 end CfVerif.C01
